@@ -103,6 +103,31 @@ func c02FixedHeightOverflow(c *core.Check) {
 		r.Cond(!readsPageBottom, key, p.Pos(call.Pos()), "compared with the position reached by "+call.Call.StaticCallee().Name(), call.Call.StaticCallee().Name()+" subtracts its argument from the page bottom: given the bottom edge of the box it is true for every block taller than what is left of the page, and the children that do not fit are forgotten instead of continuing on the next page")
 	}
 	if n == 0 {
-		r.Unknown("html/layout.blockContainerLayout | test of the box's bottom edge", p.Pos(fn.Pos()), "no call deciding a branch receives PositionY + Height")
+		// the comparison may be written in place: position > (PositionY + Height) * (1 + ε)
+		for _, a := range core.CondAtoms(fn) {
+			cmp, ok := a.(*ssa.BinOp)
+			if !ok {
+				continue
+			}
+			switch cmp.Op {
+			case token.GTR, token.GEQ, token.LSS, token.LEQ:
+			default:
+				continue
+			}
+			for _, side := range []ssa.Value{cmp.X, cmp.Y} {
+				if !arithDerives(side, isEdge) {
+					continue
+				}
+				n++
+				key := fmt.Sprintf("html/layout.blockContainerLayout | test of the box's bottom edge #%d", n)
+				page := arithDerives(side, func(v ssa.Value) bool {
+					return core.DerivesFrom(v, func(x ssa.Value) bool { return core.IsFieldNamed(x, "pageBottom") })
+				})
+				r.Cond(!page, key, p.Pos(cmp.Pos()), "the position is compared with the edge itself", "the edge is combined with the page bottom before the comparison")
+			}
+		}
+	}
+	if n == 0 {
+		r.Unknown("html/layout.blockContainerLayout | test of the box's bottom edge", p.Pos(fn.Pos()), "no call deciding a branch receives PositionY + Height, and no comparison is made on it")
 	}
 }
